@@ -45,7 +45,7 @@ def run(ctx):
             ctx.violations[v["key"]] = v
 
 
-def rescan_rule(ctx, crate, b, scanners):
+def rescan_rule(ctx, crate, b, scanners, rule="R10-1"):
     edges = taint.feedback_edges(crate, b, taint.is_env_read, scanners)
     seen = set()
     for src, scanner, bb in edges:
@@ -53,12 +53,12 @@ def rescan_rule(ctx, crate, b, scanners):
         if k in seen:
             continue
         seen.add(k)
-        ctx.ob("R10-1", b.path, "value from %s is not rescanned by %s" % (src, scanner), False,
-               key="R10-1|%s|rescan|%s->%s" % (b.path, src, scanner), where=b.loc(bb), crate=crate.kind,
+        ctx.ob(rule, b.path, "value from %s is not rescanned by %s" % (src, scanner), False,
+               key="%s|%s|rescan|%s->%s" % (rule, b.path, src, scanner), where=b.loc(bb), crate=crate.kind,
                detail="an expanded value that contains `$NAME` is expanded again; a value that mentions its own "
                       "variable never terminates (X='a$X'; echo $X)")
     if not edges:
-        ctx.ob("R10-1", b.path, "no environment-derived text reaches a `$` scanner of the pass", True, crate=crate.kind)
+        ctx.ob(rule, b.path, "no environment-derived text reaches a `$` scanner of the pass", True, crate=crate.kind)
 
 
 def fixpoint_rule(ctx, crate, b, scanners):
